@@ -178,13 +178,35 @@ def build_stream(seed: int, msgs: list[dict]) -> tuple[bytes, list[tuple]]:
     return stream, exp
 
 
+class _Sink:
+    """what the library's consumers see, WHEN they see it: an EVENT is consumed synchronously inside data_received; a response
+    is read by the task that awaits the future, and that task only runs once the data_received call that completed the
+    future has returned (set_result merely queues the wake-up) - so later messages of the same read have been parsed by then"""
+
+    def __init__(self) -> None:
+        self.items: list = []
+        self.pending: list = []
+
+    def event(self, resp) -> None:
+        self.items.append(_norm(resp))
+
+    def response(self, resp) -> None:
+        self.items.append(None)
+        self.pending.append((len(self.items) - 1, resp))
+
+    def after_read(self) -> None:
+        for i, r in self.pending:
+            self.items[i] = _norm(r)
+        self.pending.clear()
+
+
 class _RecFuture(asyncio.Future):
     def __init__(self, sink, loop):
         super().__init__(loop=loop)
         self._sink = sink
 
     def set_result(self, result):
-        self._sink.append(result)
+        self._sink.response(result)
         super().set_result(result)
 
 
@@ -194,7 +216,7 @@ class _ConnStub:
         self.lost = []
 
     def event_received(self, resp):
-        self.sink.append(resp)
+        self.sink.event(resp)
 
     def _connection_lost(self, exc):
         self.lost.append(exc)
@@ -221,7 +243,7 @@ def execute(plan: dict, ch: Chooser) -> dict:
     async def main():
         for cuts in plan["ops"]:
             cuts = [c for c in cuts if 0 < c < len(stream)]
-            sink: list = []
+            sink = _Sink()
             proto = InsecureHomeKitProtocol(_ConnStub(sink))
             proto.result_cbs.extend(_RecFuture(sink, loop) for _ in range(n_http))
             pieces = []
@@ -234,10 +256,12 @@ def execute(plan: dict, ch: Chooser) -> dict:
                 for p in pieces:
                     if p:
                         proto.data_received(p)
+                        sink.after_read()
             except Exception as e:  # noqa: BLE001
                 err = e
+            sink.after_read()
             ctx.obligations += 1
-            got = [_norm(r) for r in sink]
+            got = sink.items
             if err is not None:
                 ctx.violate("parse-raises", type(err).__name__, f"cuts={cuts[:6]} raised {err!r} on well-formed stream")
             elif got != expected:
@@ -260,24 +284,32 @@ def execute(plan: dict, ch: Chooser) -> dict:
         key = RC.H(b"c07|%d" % ch.seed)[:32]
         k = 30
         chosen = plan["ops"][:2] + plan["ops"][2 :: max(1, (len(plan["ops"]) - 2) // k)][:k]
-        for cuts in chosen:
+        for nth, cuts in enumerate(chosen):
             cuts = sorted({c for c in cuts if 0 < c < len(stream)})
-            sink: list = []
+            sink = _Sink()
             proto = SecureHomeKitProtocol(_ConnStub(sink), key, bytes(32))
             proto.result_cbs.extend(_RecFuture(sink, loop) for _ in range(n_http))
             codec = RC.FrameCodec(key)
             err = None
             prev = 0
             try:
+                frames = []
                 for c in cuts + [len(stream)]:
                     piece = stream[prev:c]
                     prev = c
                     for i in range(0, len(piece), 1024):
-                        proto.data_received(codec.seal_frame(piece[i : i + 1024]))
+                        frames.append(codec.seal_frame(piece[i : i + 1024]))
+                # every other sampled segmentation arrives as ONE read holding all its frames, the rest one frame per read
+                for blob in ([b"".join(frames)] if nth % 2 else frames):
+                    proto.data_received(blob)
+                    sink.after_read()
+                if nth % 2:
+                    ctx.probe("secure_all_frames_in_one_read")
             except Exception as e:  # noqa: BLE001
                 err = e
+            sink.after_read()
             ctx.obligations += 1
-            got = [_norm(r) for r in sink]
+            got = sink.items
             if err is not None:
                 ctx.violate("parse-raises", f"secure/{type(err).__name__}", f"frame boundaries at {cuts[:6]} raised {err!r} on a well-formed stream over an encrypted session")
             elif got != expected:
